@@ -184,6 +184,88 @@ def run(prop, tier, mir_text=None):
             why.append("the game solved is not the game read")
             break
     structural.append(("glue-main-order", "main opens / writes its output only after the reader returned a game and the solver returned Ok for THAT game (any earlier failure has already diverged)", not why and bool(mps), "; ".join(why)))
+    # gambit::get_global_info: the documented constant-sum rule and the finite-payoff rule (second work-list loop)
+    queries = []
+    if "get_global_info" in fns:
+        import smt
+        fn = mir.Fn("ggi", fns["get_global_info"])
+        pops = [b for b, (_, t, _) in fn.blocks.items() if "::pop(" in t and "[f64; 2])>::pop(" in t]
+        dbg = dict((m.group(1), m.group(2)) for m in re.finditer(r"debug (\w+) => (_\d+);", fns["get_global_info"]))
+        accs = {k: dbg.get(k) for k in ("min", "max", "one_min", "one_max", "sum")}
+        if len(pops) != 1 or not all(accs.values()):
+            res["infra"].append(f"get_global_info: payoff loop / accumulators not as expected ({len(pops)} pops, {accs})")
+        else:
+            term = fn.blocks[pops[0]][1]
+            item = re.match(r"(_\d+) = ", term).group(1)
+            nxt = re.search(r"return: (bb\d+)", term).group(1)
+            ex = mir.Executor(fn, stops={pops[0]: "continue"}, max_visits=3, max_paths=20000)
+            gps = ex.run(entry=nxt)
+            if ex.unknown:
+                res["infra"].append(f"get_global_info: {sorted(set(ex.unknown))[:3]}")
+            n_paths += len(gps) + len(ex.diverged)
+            S = {k: ("sym", f"ggi:{v}") for k, v in accs.items()}
+            popped = ("sym", f"ggi:{item}")
+
+            def done(p):
+                return any(sc == ("discr", popped) and d == ("eq", "0") for sc, d in p.cond)
+
+            def fp_ctx(p):
+                ctx = smt.Ctx({}, {})
+                for k in ("min", "max", "one_min", "one_max"):
+                    ctx.sym_sorts[S[k][1]] = "F"
+                conds = []
+                for sc, d in p.cond:
+                    if sc == ("discr", popped):
+                        continue
+                    conds.append(ctx.cond(sc, d))
+                x = {k: ctx.tr(S[k], "F")[0] for k in ("min", "max", "one_min", "one_max")}
+                reject = f"(fp.gt (fp.mul RNE (fp.sub RNE {x['max']} {x['min']}) ((_ to_fp 11 53) RNE 1000.0)) (fp.sub RNE {x['one_max']} {x['one_min']}))"
+                return ctx, conds, reject
+            tails = [p for p in gps if p.label == "return" and done(p)]
+            tdiv = [p for p in ex.diverged if done(p)]
+            if len(tails) < 1 or len(tdiv) < 1:
+                structural.append(("glue-constant-sum", "after the payoff loop the file is either accepted or rejected as not constant-sum", False, f"{len(tails)} accepting / {len(tdiv)} rejecting tails"))
+            for p in tails:
+                try:
+                    ctx, conds, reject = fp_ctx(p)
+                    queries.append(("glue-constant-sum-accept", "a Gambit file is accepted only if (range of the payoff sums) x 1000 <= range of player one's payoffs (README: 0.1 %; every f64)", ctx, conds + [reject]))
+                except Exception as e:  # noqa: BLE001
+                    res["infra"].append(f"get_global_info: cannot translate the accepting tail: {e}")
+                g = p.env.get("_0")
+                want = ("op", "Add", S["min"], ("op", "Div", ("op", "Sub", S["max"], S["min"]), ("const", "2f64")))
+                structural.append(("glue-constant-sum-offset", "the offset reported for a constant-sum file is the midpoint of the payoff sums", isinstance(g, tuple) and g[0] == "agg" and g[2].get("sum") == want, repr(g[2].get("sum") if isinstance(g, tuple) and g[0] == "agg" else g)[:200]))
+            for p in tdiv:
+                ok_msg = "#constant-sum" in repr(p.calls[-1][1])
+                structural.append(("glue-constant-sum-diagnostic", "the rejection after the payoff loop carries the #constant-sum diagnostic", ok_msg, repr(p.calls[-1][1])[:160]))
+                try:
+                    ctx, conds, reject = fp_ctx(p)
+                    queries.append(("glue-constant-sum-reject", "a Gambit file is rejected as not constant-sum only if (range of the payoff sums) x 1000 > range of player one's payoffs (every f64)", ctx, conds + [f"(not {reject})"]))
+                except Exception as e:  # noqa: BLE001
+                    res["infra"].append(f"get_global_info: cannot translate the rejecting tail: {e}")
+            # terminal arm: the sum, the finite test, the four accumulators
+            for p in [q for q in gps if q.label == "continue" and accs["sum"] in q.env] + [q for q in ex.diverged if not done(q)]:
+                sm = p.env.get(accs["sum"])
+                if sm is None:
+                    continue
+                okf = (sm[0] == "op" and sm[1] == "Add" and sm[3][0] == "op" and sm[3][1] == "Div" and sm[3][3] == ("const", "2f64") and sm[3][2][0] == "op" and sm[3][2][1] == "Sub"
+                       and sm[3][2][3] == sm[2] and sm[2][0] == "idx" and sm[2][2] == 0 and sm[3][2][2][0] == "idx" and sm[3][2][2][2] == 1)
+                structural.append(("glue-payoff-sum", "the constant-sum quantity of a terminal is one + (two - one) / 2 of the accumulated payoffs", okf, repr(sm)[:160]))
+                fin = [(sc, d) for sc, d in p.cond if isinstance(sc, tuple) and sc[0] == "call" and sc[1].endswith("is_finite") and sc[2] == [sm]]
+                if p.label == "diverge":
+                    structural.append(("glue-non-finite", "a terminal is rejected with the non-finite diagnostic exactly when its payoff sum is not finite", len(fin) == 1 and fin[0][1] == ("eq", "0") and "non-finite" in repr(p.calls[-1][1]), repr(p.calls[-1][1])[:120]))
+                else:
+                    one = sm[2]
+                    upd = (len(fin) == 1 and fin[0][1] != ("eq", "0")
+                           and p.env.get(accs["min"]) == ("call", "core::f64::<impl f64>::min", [S["min"], sm]) and p.env.get(accs["max"]) == ("call", "core::f64::<impl f64>::max", [S["max"], sm])
+                           and p.env.get(accs["one_min"]) == ("call", "core::f64::<impl f64>::min", [S["one_min"], one]) and p.env.get(accs["one_max"]) == ("call", "core::f64::<impl f64>::max", [S["one_max"], one]))
+                    structural.append(("glue-payoff-ranges", "a finite terminal updates the running min / max of the payoff sums and of player one's payoffs", upd, repr(p.env.get(accs["min"]))[:160]))
+    if queries:
+        import smt
+        results = smt.solve_batch(queries, "z3", timeout=60)
+        res["solver_s"] = results["time"]
+        for (key_, desc, _, _), (rr, out, txt) in zip(queries, results["verdicts"]):
+            # a timeout on a rewritten comparison is a candidate: the native confirmer decides
+            structural.append((key_, desc, rr == "unsat", "z3: " + (rr if rr != "error" else "no verdict within 60 s") + " " + " ".join(out.split()[:30])))
     fails = {}
     for name, desc, ok, w in structural:
         if ok:
